@@ -1,0 +1,204 @@
+//go:build verif
+
+package v1
+
+// Add-only accessors for the /verif correspondence harness (build tag `verif`), property C13:
+// drive the real FSM (BcReactorFSM.Handle) and block pool with events, and the real reactor's
+// processBlock (VerifyCommitLight against bcR.state, SaveBlock, ApplyBlock) on real stores. The
+// FSM's callbacks go to a recording stand-in for the reactor; which of the eligible peers gets a
+// block request (the FSM iterates a map) is decided by answering "send queue full" for the others.
+
+import (
+	"fmt"
+	"sort"
+	"time"
+
+	"github.com/tendermint/tendermint/libs/log"
+	"github.com/tendermint/tendermint/p2p"
+	sm "github.com/tendermint/tendermint/state"
+	"github.com/tendermint/tendermint/store"
+	"github.com/tendermint/tendermint/types"
+)
+
+type verifBcR struct {
+	tries      map[int64]p2p.ID
+	PeerErrors []p2p.ID
+	Requests   []string
+	Switched   bool
+}
+
+func (r *verifBcR) sendStatusRequest() {}
+func (r *verifBcR) sendBlockRequest(peerID p2p.ID, height int64) error {
+	if want, ok := r.tries[height]; !ok || want != peerID {
+		return errSendQueueFull
+	}
+	r.Requests = append(r.Requests, fmt.Sprintf("%d@%s", height, peerID))
+	return nil
+}
+func (r *verifBcR) sendPeerError(err error, peerID p2p.ID) { r.PeerErrors = append(r.PeerErrors, peerID) }
+func (r *verifBcR) resetStateTimer(name string, timer **time.Timer, timeout time.Duration) {}
+func (r *verifBcR) switchToConsensus()                                                    { r.Switched = true }
+
+// VerifV1 is a real BlockchainReactor (state, stores, executor, processBlock) whose FSM talks to
+// the recording stand-in.
+type VerifV1 struct {
+	bcR *BlockchainReactor
+	R   *verifBcR
+}
+
+func NewVerifV1(state sm.State, blockExec *sm.BlockExecutor, bs *store.BlockStore) *VerifV1 {
+	bcR := NewBlockchainReactor(state, blockExec, bs, true)
+	bcR.SetLogger(log.NewNopLogger())
+	start := bcR.fsm.pool.Height // what the real constructor computed
+	r := &verifBcR{tries: map[int64]p2p.ID{}}
+	bcR.fsm = NewFSM(start, r)
+	bcR.fsm.SetLogger(log.NewNopLogger())
+	return &VerifV1{bcR: bcR, R: r}
+}
+
+func verifErrName(err error) string {
+	switch err {
+	case nil:
+		return "none"
+	case errNoErrorFinished:
+		return "finished"
+	case errInvalidEvent:
+		return "invalid"
+	case errPeerTooShort:
+		return "tooshort"
+	case errPeerLowersItsHeight:
+		return "lowers"
+	case errBadDataFromPeer:
+		return "baddata"
+	case errMissingBlock:
+		return "missing"
+	case errDuplicateBlock:
+		return "duplicate"
+	case errTimeoutEventWrongState:
+		return "timeoutwrong"
+	case errNoTallerPeer:
+		return "notaller"
+	case errNoPeerResponseForCurrentHeights:
+		return "noresponse"
+	case errBlockVerificationFailure:
+		return "verification"
+	}
+	return "other:" + err.Error()
+}
+
+func (v *VerifV1) handle(ev bReactorEvent, data bReactorEventData) (out string) {
+	defer func() {
+		if r := recover(); r != nil {
+			out = "panic: " + fmt.Sprint(r)
+		}
+	}()
+	err := v.bcR.fsm.Handle(&bcReactorMessage{event: ev, data: data})
+	return v.bcR.fsm.state.name + " err=" + verifErrName(err)
+}
+
+func (v *VerifV1) Start() string { return v.handle(startFSMEv, bReactorEventData{}) }
+func (v *VerifV1) Stop() string  { return v.handle(stopFSMEv, bReactorEventData{}) }
+func (v *VerifV1) StatusResponse(peer p2p.ID, base, height int64) string {
+	return v.handle(statusResponseEv, bReactorEventData{peerID: peer, base: base, height: height})
+}
+func (v *VerifV1) BlockResponse(peer p2p.ID, b *types.Block, size int) string {
+	return v.handle(blockResponseEv, bReactorEventData{peerID: peer, block: b, length: size})
+}
+func (v *VerifV1) NoBlockResponse(peer p2p.ID, height int64) string {
+	return v.handle(noBlockResponseEv, bReactorEventData{peerID: peer, height: height})
+}
+func (v *VerifV1) Processed(failed bool) string {
+	var err error
+	if failed {
+		err = errBlockVerificationFailure
+	}
+	return v.handle(processedBlockEv, bReactorEventData{err: err})
+}
+func (v *VerifV1) PeerRemove(peer p2p.ID) string {
+	return v.handle(peerRemoveEv, bReactorEventData{peerID: peer, err: errSwitchRemovesPeer})
+}
+func (v *VerifV1) StateTimeout(name string) string {
+	return v.handle(stateTimeoutEv, bReactorEventData{stateName: name})
+}
+
+// MakeRequests is makeRequestsEv; tries[h] is the peer that will accept the request for height h.
+func (v *VerifV1) MakeRequests(max int, tries map[int64]p2p.ID) string {
+	v.R.tries = tries
+	return v.handle(makeRequestsEv, bReactorEventData{maxNumRequests: max})
+}
+
+// ProcessOnce is one turn of processBlocksRoutine's inner loop: the real processBlock, and —
+// unless both blocks were not there — the processedBlockEv it sends to the FSM.
+func (v *VerifV1) ProcessOnce() (out string) {
+	defer func() {
+		if r := recover(); r != nil {
+			out = "panic: " + fmt.Sprint(r)
+		}
+	}()
+	err := v.bcR.processBlock()
+	if err == errMissingBlock {
+		return "missing"
+	}
+	_ = v.bcR.fsm.Handle(&bcReactorMessage{event: processedBlockEv, data: bReactorEventData{err: err}})
+	if err != nil {
+		return "verification-failure"
+	}
+	return "processed"
+}
+
+// State of the reactor (bcR.state).
+func (v *VerifV1) State() sm.State { return v.bcR.state }
+
+// VerifV1Peer / VerifV1View: a copy of the FSM's and pool's bookkeeping.
+type VerifV1Peer struct {
+	ID         p2p.ID
+	Base       int64
+	Height     int64
+	NumPending int
+	Blocks     []string // "h+" delivered, "h-" requested
+}
+type VerifV1View struct {
+	State             string
+	Height            int64
+	MaxPeerHeight     int64
+	NextRequestHeight int64
+	Planned           []int64
+	Blocks            []string // "h:peer"
+	Peers             []VerifV1Peer
+}
+
+func (v *VerifV1) View() VerifV1View {
+	f := v.bcR.fsm
+	p := f.pool
+	w := VerifV1View{State: f.state.name, Height: p.Height, MaxPeerHeight: p.MaxPeerHeight, NextRequestHeight: p.nextRequestHeight}
+	for h := range p.plannedRequests {
+		w.Planned = append(w.Planned, h)
+	}
+	sort.Slice(w.Planned, func(i, j int) bool { return w.Planned[i] < w.Planned[j] })
+	var hs []int64
+	for h := range p.blocks {
+		hs = append(hs, h)
+	}
+	sort.Slice(hs, func(i, j int) bool { return hs[i] < hs[j] })
+	for _, h := range hs {
+		w.Blocks = append(w.Blocks, fmt.Sprintf("%d:%s", h, p.blocks[h]))
+	}
+	for _, q := range p.peers {
+		vp := VerifV1Peer{ID: q.ID, Base: q.Base, Height: q.Height, NumPending: q.NumPendingBlockRequests}
+		var bh []int64
+		for h := range q.blocks {
+			bh = append(bh, h)
+		}
+		sort.Slice(bh, func(i, j int) bool { return bh[i] < bh[j] })
+		for _, h := range bh {
+			if q.blocks[h] != nil {
+				vp.Blocks = append(vp.Blocks, fmt.Sprintf("%d+", h))
+			} else {
+				vp.Blocks = append(vp.Blocks, fmt.Sprintf("%d-", h))
+			}
+		}
+		w.Peers = append(w.Peers, vp)
+	}
+	sort.Slice(w.Peers, func(i, j int) bool { return w.Peers[i].ID < w.Peers[j].ID })
+	return w
+}
